@@ -189,6 +189,15 @@ def _nested_dict_get(d, path):
     return current
 
 
+def _nested_dict_merge(dst: dict, src: dict) -> None:
+    """Merge `src` into `dst`: namespaces (dicts) are merged, values are replaced."""
+    for key, value in src.items():
+        if isinstance(value, dict) and isinstance(dst.get(key), dict):
+            _nested_dict_merge(dst[key], value)
+        else:
+            dst[key] = value
+
+
 @dataclass
 class State:
     """JAX interpreter that collects tagged state values.
@@ -316,8 +325,7 @@ class State:
 
                 # Merge vectorized scan states into collected state
                 # scan_states is already vectorized by scan - just merge it
-                for name, vectorized_values in scan_states.items():
-                    self.collected_state[name] = vectorized_values
+                _nested_dict_merge(self.collected_state, scan_states)
 
                 outvals = jtu.tree_leaves(
                     (flat_carry_out, scanned_out),
